@@ -314,6 +314,12 @@ func (conv *converter) expandMacro(macro *localMacroFunc, call *ast.CallExpr) ir
 			if sel, ok := cur.Parent().(*ast.SelectorExpr); ok && sel.Sel == ident {
 				return true // A field or a method name, not a param
 			}
+			switch cur.Name() {
+			case "Names", "Name", "Label":
+				// A name declared inside the template (a param of a func literal,
+				// a struct field, a local var or type) or a label, not an expression.
+				return true
+			}
 			arg, ok := args[ident.Name]
 			if ok {
 				cur.Replace(arg)
